@@ -167,8 +167,10 @@ impl OptChainVisitor<'_> {
                 }
             }
         } else {
+            // a link that is not optional is the call it always was: it keeps its position (what is injected around it
+            // when it is instrumented later is mapped to its line, not to whatever was printed before)
             return Some(CallExpr {
-                span: DUMMY_SP,
+                span: call_expr.span,
                 callee: call_expr.callee.clone().into(),
                 args: call_expr.args.clone(),
                 ctxt: call_expr.ctxt,
